@@ -1,5 +1,5 @@
 ------------------------------ MODULE IoTimerRace ------------------------------
-(* DRAFT (round 0).  The hand-over between an expiring io timer and an early completion when
+(* The hand-over between an expiring io timer and an early completion when
    the *taker* is not the worker that owns the fd's timer list (src/io/sys/unix/mod.rs:82-190,
    epoll.rs:240-249, mpsc_list_v1.rs:38-45).
      owner worker : schedule_timer -> pop_if (moves the TimerData OUT of the node: value = None)
